@@ -249,6 +249,7 @@ type e2eScript struct {
 	Outcomes []string `json:"outcomes"` // abstract kinds
 	Variant  int      `json:"variant"`
 	BodyVar  int      `json:"body_var"`
+	StartID  int64    `json:"start_id"` // when set: the scripted call is issued with this request id
 }
 
 type e2eResult struct {
@@ -287,6 +288,9 @@ func runE2E(s e2eScript) (res e2eResult) {
 	}
 	defer c.Close()
 	sn.armed.Store(true)
+	if s.StartID > 0 {
+		mcp.VerifSetNextRequestID(c, s.StartID)
+	}
 	ctx, cancel := context.WithTimeout(context.Background(), 5*time.Second)
 	defer cancel()
 	req := &mcp.CallToolRequest{}
